@@ -160,10 +160,11 @@ func (d *Dumper) ValueLit(in any, optFns ...ValueLitOptFn) string {
 	switch tpe.Kind() {
 	case reflect.Ptr:
 		kind := rv.Elem().Kind()
-		if _, ok := basicKinds[kind]; ok {
-			return fmt.Sprintf("func(v %s) *%s { return &v }(%s)", kind, kind, d.ValueLit(rv.Elem(), optFns...))
+		if _, ok := basicKinds[kind]; ok || kind == reflect.String {
+			elemType := d.ReflectTypeLit(rv.Elem().Type())
+			return fmt.Sprintf("func(v %s) *%s { return &v }(%s)", elemType, elemType, d.ValueLit(rv.Elem(), optFns...))
 		}
-		return fmt.Sprintf("&(%s)", d.ValueLit(rv.Elem(), optFns...))
+		return fmt.Sprintf("&(%s)", d.ValueLit(rv.Elem(), append(optFns, SubValue(false))...))
 	case reflect.Struct:
 		buf := bytes.NewBufferString(d.ReflectTypeLit(tpe))
 		buf.WriteString(`{`)
@@ -209,6 +210,8 @@ func (d *Dumper) ValueLit(in any, optFns ...ValueLitOptFn) string {
 
 		keyLits := make([]string, 0)
 		keyValues := map[string]reflect.Value{}
+
+		optFns = append(optFns, SubValue(false))
 
 		for _, key := range rv.MapKeys() {
 			k := d.ValueLit(key, optFns...)
